@@ -125,14 +125,16 @@ type flashOp struct {
 	kind    string // go | show | plain | nest | hop | hop2
 	path    string
 	// go
-	with      []flashMsg
-	hasLevel  []bool
-	inputs    []flashMsg
-	inputMode int // 0 none, 1 urlencoded form, 2 query, 3 multipart
-	route     bool
-	status    int
-	failCode  int    // consumer: after recording the messages the handler fails: 0 no, -1 plain error, else *fiber.Error code
-	srvCookie string // the serialised cookie as the server put it into the response header
+	with         []flashMsg
+	hasLevel     []bool
+	inputs       []flashMsg
+	inputMode    int // 0 none, 1 urlencoded form, 2 query, 3 multipart
+	route        bool
+	routeQueries bool // Route() with RedirectConfig.Queries
+	twoStage     bool // With, To, With ..., To in one request
+	status       int
+	failCode     int    // consumer: after recording the messages the handler fails: 0 no, -1 plain error, else *fiber.Error code
+	srvCookie    string // the serialised cookie as the server put it into the response header
 	// any
 	read      bool
 	probeKeys []string
@@ -278,6 +280,8 @@ func (r *flashRun) genGo(op *flashOp) {
 		}
 	}
 	op.route = s.Chance(250)
+	op.routeQueries = op.route && s.Chance(500)
+	op.twoStage = s.Chance(120)
 	op.status = simrt.PickS(s, 0, 303, 301, 307)
 }
 
@@ -1063,14 +1067,22 @@ func flashMain(s *simrt.Sim, info *harness.RunInfo) {
 			} else {
 				rd.With(m.Key, m.Value)
 			}
+			if op.twoStage && i == 0 && len(op.with) > 1 {
+				// the handler settles on a target, then adds more and redirects again: everything attached
+				// in this request travels with the final redirect
+				_ = rd.To("/plain")
+			}
 		}
 		if op.inputMode != 0 {
 			rd.WithInput()
 		}
 		var err error
-		if op.route {
+		switch {
+		case op.route && op.routeQueries:
+			err = rd.Route("show", fiber.RedirectConfig{Queries: map[string]string{"ref": "1"}})
+		case op.route:
 			err = rd.Route("show")
-		} else {
+		default:
 			err = rd.To("/show")
 		}
 		op.srvCookie = string(c.Response().Header.PeekCookie(flashName))
